@@ -31,9 +31,46 @@ LEVEL_NOTE = (
     "validity is property C18) and mat.Sum. The hand-written model is validated on generated alignments (2-6 rows x 5-60 columns) only.")
 TECHNIQUE = "Lean 4 proof (list induction, permutation invariance, loop invariant of Brent's method over R for any objective) + regenerated constants/formula + differential correspondence + independent likelihood grid (testing)"
 LEAN_MODULES = ["Gv.Props.C17"]
-REQUIRED_THEOREMS = []
-PARTIAL = []
-TRUSTED = []
+REQUIRED_THEOREMS = ["Gv.Props.C17." + n for n in [
+    "source_shape_known",
+    "matrix_symmetric", "matrix_diag_zero", "entry_is_pair_result", "zero_when_no_unambiguous_difference",
+    "pairFreq_masks_ambiguous", "counts_row_swap", "jcCounts_symmetric", "pairFreq_sums_to_one",
+    "counts_column_permutation", "selection_row_permutation",
+    "jc69_eq_published", "jc69_range", "jc69_zero_of_no_difference",
+    "brent_evaluations_bounded", "brent_result_ge_blmin", "brent_result_is_best_evaluated", "optDistF_result",
+    "likelihood_clamps_distance",
+    "entry_in_range_or_missing_marker", "missing_marker_only_without_counted_weight", "range_0_20",
+    "reported_distance_is_best_evaluated", "lnL_transpose_of_reversible_partial",
+]]
+PARTIAL = [
+    "likelihood maximiser over the whole range [1e-8, 20]: NOT proved (needs unimodality of a 20x20 spectral likelihood built from a numeric "
+    "eigen-decomposition). Proved instead, for any objective: the reported distance is one of the <= BRENT_ITMAX+1 evaluated points and no "
+    "evaluated point has a higher likelihood (brent_result_is_best_evaluated, reported_distance_is_best_evaluated). The whole-range clause is "
+    "TESTED on every case: independent likelihood (oracle's own pair frequencies; P(t) = R diag(g(lambda t)) L from the implementation's "
+    "eigen-system, g = exp or the gamma mixture) on a 61-point log grid over [1e-8, 20] and at d(1 +- 1e-3), d(1 +- 1e-2), d(1 +- 0.1), "
+    "d(1 +- 0.3), tolerance 1e-9 max(1, |lnL|) (a search stopped within the stop rule's 1e-6 of a maximiser loses <= 2e-10)",
+    "upper bound BL_MAX on Brent's abscissa for an ARBITRARY objective: not a theorem of the code as written (a forced minimal step x +- tol1 can "
+    "leave a bracket narrower than 2 tol1; standard Brent prevents this through the stop test the unchanged tree replaced). Proved instead: the "
+    "abscissa is >= BL_MIN, lk_Dist only sees it clamped into [BL_MIN, BL_MAX] (likelihood_clamps_distance) and MLDist caps the stored value at 20",
+    "range_0_20 is for the repaired source (check2SequencesDiff honours the selection) with positive weights and the protein alphabet; for the "
+    "unchanged tree the theorem is entry_in_range_or_missing_marker (0, -1, or [BL_MIN, 20]) + missing_marker_only_without_counted_weight",
+    "row permutation => permuted matrix and column permutation => same matrix are proved for the COUNTS over the reals (counts_row_swap, "
+    "selection_row_permutation, counts_column_permutation) and for the matrix assembly; for the distances they need (i) reversibility of the "
+    "numerically decomposed P(t) (lnL_transpose_of_reversible_partial is the step under that hypothesis) and (ii) exact arithmetic - float "
+    "sums depend on the order of the columns. Tested on every case: |x-y| <= 1e-5 max(1,|x|,|y|) or equal likelihood to 1e-12, between "
+    "entries that are maximisers in both calls",
+    "empirical equilibrium frequencies (aaFrequency) are modelled and compared bit-exactly; no theorem relates them to the alignment's "
+    "composition (the property does not ask for it)",
+    "NaN / Inf / signed zeros, rounding and the last-ulp behaviour of math.Exp/Log/Pow are not modelled (theorems over the reals; Brent's "
+    "'best evaluated point' theorem needs a total order on objective values, which float64 with NaN is not)",
+    "stepsize is 1 in every caller (NewProtDistModel); JC69Dist is modelled for stepsize 1 only",
+]
+TRUSTED = [
+    "gonum mat.Eigen / Dense.Inverse (external call; the eigen-system the implementation computed is read through reflect and handed to model and "
+    "oracle; its validity is property C18) and gonum mat.Sum (only compared with the thresholds .001, 1 +- .001)",
+    "float64 rounding, math.Exp/Log/Pow vs Lean's libm: correspondence tolerance on ML distances = the Brent stop rule's resolution",
+    "the oracle's specification side (lean/Gv/Oracle/ProtDist.lean: specF, specLnL, judgeLk): independent of the model, hand-written",
+]
 ASSUMPTIONS = ["site weights are finite and positive, alpha > 0, residues are the 20 amino acids (upper case), '-', 'X' or '*'"]
 RULE = ("protein alignments of 2-6 rows x 5-60 columns derived from a random parent (identical, 1-3 substitutions, 5 %, 20 %, 50 %, "
         "saturated) with gaps / X / * sprinkled or in runs; 7 models x {model, empirical} frequencies x gamma on/off (alpha in "
@@ -250,5 +287,45 @@ def decode(impl):
     return out
 
 
+def source_version(cases):
+    """which of the recorded departures the source under test shows (read from the regenerated facts and the probes)"""
+    out = {}
+    try:
+        gen = open(common.os.path.join(common.LEAN, "Gv/Gen/ProtDist.lean")).read()
+    except OSError:
+        gen = ""
+    out["brent-stop-rule"] = "as-is" if "old_param-cur_param" in gen else ("repaired" if "tol2 - 0.5*(b-a)" in gen else "unknown")
+    out["empirical-frequencies"] = "as-is" if "num[i] = w * freq[i]" in gen else ("repaired" if "num[i] += w * freq[i]" in gen else "unknown")
+    out["missing-marker"] = "as-is" if 'check2SequencesDiff(&pair)"' in gen else ("repaired" if "check2SequencesDiff(&pair, selected)" in gen else "unknown")
+    return out
+
+
 def check(tier, seed):
-    return common.generic_check(sys.modules[__name__], tier, seed)
+    """generic flow with the memoising axiom audit (Mathlib-importing Props module) and one oracle process per core
+    (an oracle call replays three MLDist runs per case)"""
+    import json
+
+    def audit_memo(modules):
+        rc, out = common.run(["lake", "env", "lean", "--run", "Audit/AuditMemo.lean"] + modules, cwd=common.LEAN, timeout=1200)
+        ths = []
+        for m in common.re.finditer(r"THEOREM (\S+) (\S+) axioms=\[(.*?)\] (OK|FORBIDDEN)", out):
+            axs = [a.strip() for a in m.group(3).split(",") if a.strip()]
+            ths.append({"module": m.group(1), "name": m.group(2), "axioms": axs, "ok": m.group(4) == "OK"})
+        return rc, ths, out
+    common.audit = audit_memo
+    orig_oracle = common.run_oracle
+    common.run_oracle = lambda cases, nproc=None: orig_oracle(cases, nproc or min(common.NCPU, max(1, len(cases) // 8)))
+    orig_impl = common.run_impl
+    common.run_impl = lambda binpath, cases, timeout_s=5.0, nproc=None, env=None: orig_impl(
+        binpath, cases, timeout_s, nproc or min(common.NCPU, max(1, len(cases) // 8)), env)
+    rc = common.generic_check(sys.modules[__name__], tier, seed)
+    sv = source_version(None)
+    print("SOURCE-VERSION property=C17 " + " ".join("%s=%s" % kv for kv in sorted(sv.items())))
+    p = common.os.path.join(common.EVID, "C17.json")
+    try:
+        ev = json.load(open(p))
+        ev["coverage"]["source_version_seen"] = sv
+        json.dump(ev, open(p, "w"), indent=1)
+    except (OSError, ValueError, KeyError):
+        pass
+    return rc
